@@ -1029,3 +1029,18 @@ package lorawan
 //@   requires typed-nil: istype(p.MACPayload, "*MACPayload") ==> mpl(p) != nil
 //@   modifies nothing
 //@   ensures C02/validate: err == nil ==> result0 == (p.MIC[2] == callres("(*PHYPayload).calculateUplinkDataMIC", 0)[0][2] && p.MIC[3] == callres("(*PHYPayload).calculateUplinkDataMIC", 0)[0][3])
+
+// ---------------------------------------------------------------------------
+// C20: TXParamSetupReq EIRP coding (LoRaWAN 1.0.2+ §5.8): index -> dBm
+// ---------------------------------------------------------------------------
+//@ immutable eirpTable
+//@ spec eirp_tbl(i) = ite(i == 0, float32(8), ite(i == 1, float32(10), ite(i == 2, float32(12), ite(i == 3, float32(13), ite(i == 4, float32(14), ite(i == 5, float32(16), ite(i == 6, float32(18), ite(i == 7, float32(20), ite(i == 8, float32(21), ite(i == 9, float32(24), ite(i == 10, float32(26), ite(i == 11, float32(27), ite(i == 12, float32(29), ite(i == 13, float32(30), ite(i == 14, float32(33), float32(36))))))))))))))))
+//@ func GetTXParamSetupEIRPIndex
+//@   props C20
+//@   requires finite: eirp >= 8
+//@   ensures range: result <= 15
+//@   ensures largest: eirp_tbl(result) <= eirp && (result == 15 || eirp_tbl(result + 1) > eirp)
+//@ func GetTXParamSetupEIRP
+//@   props C20
+//@   ensures range: (err == nil) == (index <= 15)
+//@   ensures value: err == nil ==> result0 == eirp_tbl(index)
